@@ -192,6 +192,89 @@ def check(program, modules):
     return out
 
 
+_AXIS = None
+
+
+def _axis(name):
+    """'x' / 'y' / 'z' when the name says which coordinate it holds
+    (x, dx, root_x, shift_y, x0 ...), else None."""
+    import re
+    m = re.search(r"(?:^|_)(?:d|delta|min|max)?_?([xyz])\d?$", name)
+    return m.group(1) if m else None
+
+
+def _expr_axis(e):
+    """The one coordinate the names of an expression speak of, else None."""
+    seen = set()
+    for x in ast.walk(e):
+        nm = None
+        if isinstance(x, ast.Name):
+            nm = x.id
+        elif isinstance(x, ast.Attribute):
+            nm = x.attr
+        if nm is not None:
+            a = _axis(nm)
+            if a is not None:
+                seen.add(a)
+    return seen.pop() if len(seen) == 1 else None
+
+
+def return_swaps(program, modules):
+    """[(module, assignment node, callee, text)]: ``sx, sy = f(...)`` where
+    every return of the package function f is a tuple whose elements speak
+    of one coordinate each, in an order other than that of the targets'
+    names (f returns (.. y .., .. x ..) and the caller calls the first item
+    an x): the values are taken for each other."""
+    out = []
+    n = 0
+    for mname in modules:
+        m = program.modules.get(mname)
+        if m is None:
+            continue
+        for st in ast.walk(m.tree):
+            if not (isinstance(st, ast.Assign) and len(st.targets) == 1 and
+                    isinstance(st.targets[0], (ast.Tuple, ast.List)) and
+                    isinstance(st.value, ast.Call)):
+                continue
+            tg = st.targets[0].elts
+            if not all(isinstance(t, (ast.Name, ast.Attribute)) for t in tg):
+                continue
+            fn = _resolve(program, m, st.value)
+            if fn is None:
+                continue
+            rets = [r for r in ast.walk(fn) if isinstance(r, ast.Return)
+                    and r.value is not None and _owner(r) is fn]
+            if not rets or not all(
+                    isinstance(r.value, ast.Tuple) and
+                    len(r.value.elts) == len(tg) for r in rets):
+                continue
+            t_ax = [_axis(t.id if isinstance(t, ast.Name) else t.attr)
+                    for t in tg]
+            if len(set(a for a in t_ax if a)) < 2:
+                continue
+            n += 1
+            for r in rets:
+                r_ax = [_expr_axis(e) for e in r.value.elts]
+                bad = [i for i in range(len(tg))
+                       if t_ax[i] and r_ax[i] and t_ax[i] != r_ax[i]]
+                # a clean exchange: what one target expects the other gets
+                swapped = [(i, j) for i in bad for j in bad if i < j and
+                           t_ax[i] == r_ax[j] and t_ax[j] == r_ax[i]]
+                if swapped:
+                    i, j = swapped[0]
+                    out.append((mname, st, fn,
+                                "%s = %s(...): %s returns (%s) - item %d "
+                                "speaks of %s, item %d of %s - but the "
+                                "targets name them %s and %s: the two "
+                                "coordinates are taken for each other" % (
+                                    ast.unparse(st.targets[0]), fn.name,
+                                    fn.name, ast.unparse(r.value), i,
+                                    r_ax[i], j, r_ax[j],
+                                    ast.unparse(tg[i]), ast.unparse(tg[j]))))
+                    break
+    return out, n
+
+
 def rule(program, rep, rule_id, modules, floor=1, domains=None):
     """Report the SWAP / DROP findings of ``modules`` under ``rule_id``,
     and the defaults chosen by a truth test that replace a caller's falsy
@@ -222,6 +305,11 @@ def rule(program, rep, rule_id, modules, floor=1, domains=None):
                         "the change shows through every entry" % (
                             q, nm_, ast.unparse(v_),
                             ast.unparse(c_)[:60]), v_, positive=True)
+    rs, n_rs = return_swaps(program, modules)
+    for mname, st, fn_, text in rs:
+        rep.bad(rule_id, "%s:%d" % (mname, st.lineno),
+                "returned coordinates exchanged (%s)" % fn_.name, text, st,
+                positive=True)
     res = check(program, modules)
     for m in modules:
         if m in program.modules:
